@@ -1795,6 +1795,55 @@ Proof.
   apply fin_segment; [exact Npost|exact Lp].
 Qed.
 
+(* ================= zero delay: the acknowledgement directly after the request ================= *)
+(* The waiter is registered before the request is written ([Start] is register-then-write): an
+   own acknowledgement that is the very next event after the Start completes the request. *)
+Theorem ack_right_after_write_completes evs pre h rk id a post :
+  wf evs = true -> evs = pre ++ Start h rk id :: Recv a :: post ->
+  first_kind rk <> KPubRec -> own_ack (first_kind rk) id (Recv a) = true ->
+  firstn (S (length pre)) (closings (run sig_init evs)) = repeat false (S (length pre)) ->
+  In (Done h (ack_result rk a)) (nth (S (length pre)) (run sig_init evs) []).
+Proof.
+  intros W E Hk Ha Hc.
+  assert (T : length (pre ++ Start h rk id :: []) = S (length pre)) by (rewrite app_length; cbn; lia).
+  pose proof (completes_at_own_ack evs pre h rk id [] a post W E Hk Ha) as C. cbn zeta in C.
+  rewrite T in C. specialize (C (fun e (H : In e []) => match H with end) (fun H : In (Cancel h) [] => H) Hc).
+  assert (V : nth (S (length pre)) (view h (run sig_init evs)) [] = [Done h (ack_result rk a)]).
+  { rewrite C. rewrite app_nth2 by (rewrite repeat_length; lia). rewrite repeat_length, Nat.sub_diag. reflexivity. }
+  rewrite nth_view in V.
+  assert (X : In (Done h (ack_result rk a)) (filter (concerns h) (nth (S (length pre)) (run sig_init evs) []))).
+  { rewrite V. left. reflexivity. }
+  apply filter_In in X. exact (proj1 X).
+Qed.
+
+(* QoS 2: PUBREC directly after the PUBLISH, PUBCOMP directly after the PUBREL *)
+Theorem qos2_acks_right_after_writes_complete evs pre h id a1 a2 post :
+  wf evs = true -> evs = pre ++ Start h RPub2 id :: Recv a1 :: Resume h :: Recv a2 :: post ->
+  own_ack KPubRec id (Recv a1) = true -> own_ack KPubComp id (Recv a2) = true ->
+  firstn (length pre + 3) (closings (run sig_init evs)) = repeat false (length pre + 3) ->
+  In (WPubRel h id) (nth (length pre + 2) (run sig_init evs) []) /\
+  In (Done h (RSuccess [])) (nth (length pre + 3) (run sig_init evs) []).
+Proof.
+  intros W E Ha1 Ha2 Hc.
+  assert (T : length (pre ++ Start h RPub2 id :: []) = S (length pre)) by (rewrite app_length; cbn; lia).
+  pose proof (qos2_completes_at_pubcomp evs pre h id [] a1 [] [] a2 post W E Ha1 Ha2) as C. cbn zeta in C.
+  rewrite T in C. cbn [length] in C.
+  replace (S (length pre) + (1 + 1))%nat with (length pre + 3)%nat in C by lia.
+  specialize (C (fun e (H : In e []) => match H with end) (fun H : In (Resume h) [] => H)
+                (fun e (H : In e []) => match H with end) (fun H : In (Cancel h) ([] ++ [] ++ []) => H) Hc).
+  replace (S (length pre) + 1)%nat with (length pre + 2)%nat in C by lia. cbn [repeat app] in C.
+  assert (V1 : nth (length pre + 2) (view h (run sig_init evs)) [] = [WPubRel h id]).
+  { rewrite C. rewrite app_nth2 by (rewrite repeat_length; lia). rewrite repeat_length, Nat.sub_diag. reflexivity. }
+  assert (V2 : nth (length pre + 3) (view h (run sig_init evs)) [] = [Done h (RSuccess [])]).
+  { rewrite C. rewrite app_nth2 by (rewrite repeat_length; lia). rewrite repeat_length.
+    replace (length pre + 3 - (length pre + 2))%nat with 1%nat by lia. reflexivity. }
+  rewrite nth_view in V1, V2. split.
+  - assert (X : In (WPubRel h id) (filter (concerns h) (nth (length pre + 2) (run sig_init evs) []))) by (rewrite V1; left; reflexivity).
+    apply filter_In in X. exact (proj1 X).
+  - assert (X : In (Done h (RSuccess [])) (filter (concerns h) (nth (length pre + 3) (run sig_init evs) []))) by (rewrite V2; left; reflexivity).
+    apply filter_In in X. exact (proj1 X).
+Qed.
+
 (* ================= non-vacuity: concrete histories satisfying the hypotheses ================= *)
 Definition ackOf (k : akind) (id : N) : ack := mkAck k id [].
 
@@ -1913,6 +1962,17 @@ Proof.
   - intros e Hin. cbn in Hin. repeat (destruct Hin as [<-|Hin]; [reflexivity|]). contradiction.
   - intros Hin. cbn in Hin. repeat (destruct Hin as [Hin|Hin]; [discriminate|]). contradiction.
 Qed.
+
+(* zero-delay broker: every acknowledgement is the event directly after the packet it answers *)
+Definition ex_zero : list event :=
+  [ Start 0 RUnsub 3; Recv (ackOf KUnsubAck 3);
+    Start 1 RPub2 4; Recv (ackOf KPubRec 4); Resume 1; Recv (ackOf KPubComp 4);
+    Start 2 (RSub [([97], 0)]) 5; Recv (mkAck KSubAck 5 [2]) ].
+
+Example ex_zero_ok : wf ex_zero = true /\
+  run sig_init ex_zero = [ []; [Done 0 (RSuccess [])]; []; []; [WPubRel 1 4]; [Done 1 (RSuccess [])];
+                           []; [Done 2 (RSuccess [([97], 2)])] ].
+Proof. split; vm_compute; reflexivity. Qed.
 
 (* a miscounted SUBACK: ErrInvalidSubAck for the subscriber, transport closed *)
 Example ex_bad_suback :
